@@ -161,14 +161,15 @@ func (x *Exec) entry(fn *ssa.Function) ([]Val, State) {
 
 // verifyFunc generates the obligations of one function under contract.
 type RunOpts struct {
-	Trace     bool
-	Depth     int
-	Over      map[string]stdModel
-	Opaque    map[string]bool
-	Setup     func(x *Exec) // extra declarations before execution
-	Loops     map[int]*LoopSpec
-	NoModular bool
-	EnvCalls  map[string]bool
+	Trace         bool
+	Depth         int
+	Over          map[string]stdModel
+	Opaque        map[string]bool
+	Setup         func(x *Exec) // extra declarations before execution
+	Loops         map[int]*LoopSpec
+	NoModular     bool
+	EnvCalls      map[string]bool
+	PreTaggedOnly bool
 }
 
 func (e *Engine) verifyFunc(key string, withTrace bool, maxDepth int) (fr *FuncResult) {
@@ -187,7 +188,7 @@ func (e *Engine) verifyFuncOpts(key string, o RunOpts) (fr *FuncResult) {
 	vc := &VC{S: newScript(), ls: newLayouts(), mapFams: map[string]*mapFam{}, nonNil: map[string]bool{},
 		mem: map[string]*memNode{}, allocP: map[string][]string{}, bornLt: map[string]string{}, isAlloc: map[string]bool{}, allocAfter: map[string]string{}, distinct: map[[2]string]bool{}, escaped: map[string]bool{}}
 	fr.VC = vc
-	x := &Exec{eng: e, vc: vc, top: fn, topC: ct, maxDepth: maxDepth, nonNil: vc.nonNil, over: o.Over, opaque: o.Opaque, loopSpecs: o.Loops, noModular: o.NoModular, envCalls: o.EnvCalls}
+	x := &Exec{eng: e, vc: vc, top: fn, topC: ct, maxDepth: maxDepth, nonNil: vc.nonNil, over: o.Over, opaque: o.Opaque, loopSpecs: o.Loops, noModular: o.NoModular, envCalls: o.EnvCalls, preTaggedOnly: o.PreTaggedOnly}
 	fr.Exec = x
 	if withTrace {
 		x.trace = newTrace()
